@@ -103,14 +103,14 @@ class LogsDriver:
             out.update(tr=self._tr_of_scope.get(expect_sid, dict(given=False, s=-1)), ident=expect_sid)
             return out
         # the tag: wherever and however the library renders it, the line must carry the trace id and a unique
-        # identifier (32-hex tokens or the given id "T<n>"), the scope name, and end with the message text
+        # identifier (32-hex tokens or the given id "T<n>%2F%s"), the scope name, and end with the message text
         import re
         text = next((t for t in ("plain message", "value x and 3", "100% sure", "user ann") if body.endswith(t)), None)
         if text is None:
             out.update(tr=dict(given=False, s=-1), ident=-1, text="UNPARSEABLE " + body[:80])
             return out
         head = body[: len(body) - len(text)]
-        given = re.findall(r"(?<![0-9A-Za-z])T\d+(?![0-9A-Za-z])", head)
+        given = re.findall(r"(?<![0-9A-Za-z])T\d+%2F%s(?![0-9A-Za-z])", head)
         hexes = re.findall(r"(?<![0-9a-f])[0-9a-f]{32}(?![0-9a-f])", head)
         if lab and lab not in head:
             out.update(tr=dict(given=False, s=-1), ident=-1, text="NAME-MISSING " + body[:80])
@@ -124,7 +124,7 @@ class LogsDriver:
             return out
         if new_scope is not None:
             if trace not in self.trace_of:
-                self.trace_of[trace] = dict(given=(trace == f"T{new_scope}"), s=new_scope)
+                self.trace_of[trace] = dict(given=(trace == f"T{new_scope}%2F%s"), s=new_scope)
             self.ident_of.setdefault(ident, new_scope) if ident not in self.ident_of else None
             if self.ident_of.get(ident) != new_scope:
                 self.ident_of[ident + "#dup"] = new_scope
@@ -169,7 +169,7 @@ class LogsDriver:
             if ownlog:
                 kw["logger"] = self._own_logger(sid)
             if owntrace:
-                kw["trace_id"] = f"T{sid}"
+                kw["trace_id"] = f"T{sid}%2F%s"     # a caller's id is arbitrary text - here with %-sequences in it
             w.do(str(t), "tryu")     # a catch-all right outside the block (it survives a cancellation of the block)
             w.do(str(t), "xscope", sid % 2 == 0, sid, lab, kw)
             self.lines[:] = []
